@@ -286,12 +286,17 @@ def make_case(args):
         perm = list(da.dims)
         rng.shuffle(perm)
         da = da.transpose(*perm)
+    int_dir = False
+    if not oned and np.all(np.asarray(d) == np.round(d)) and rng.random() < 0.3:
+        # whole-degree directions stored as integers (what np.arange(0, 360, 30) gives)
+        da = da.assign_coords(dir=np.asarray(d).astype("int64"))
+        int_dir = True
     lead = [x for x in da.dims if x not in ("freq", "dir")]
     src = np.asarray(da.transpose(*lead, "freq", *([] if oned else ["dir"])).values, dtype=float)
     if oned:
         src = src[..., None]
     rec = dict(icase=icase, api=api, exact=exact, dtype=dtype, freq=freq, dirs=d, src=src, lead=lead, shape=shape, kinds=kinds,
-               dkind=dkind, fkind=fkind, oned=oned)
+               dkind=dkind, fkind=fkind, oned=oned, int_dir=int_dir)
     try:
         if api == "rotate":
             bw = gen.bin_width(d)
@@ -395,6 +400,61 @@ def trigger_of(rec):
     return None
 
 
+def legacy_interp_spec(ck):
+    """`core.utils.interp_spec` (the numpy regridder used by the SWAN/TRIAXYS readers): the clauses of the property that apply to
+    it — identity on the same grid, exact on the nodes shared with the source (the lowest and highest source frequency
+    included), linear in between, zero outside the source range, never negative."""
+    from wavespectra.core.utils import interp_spec
+
+    rng = ck.rng
+    for it in range(80 if ck.tier == "quick" else 1500):
+        nf = rng.randint(2, 12)
+        f = np.cumsum([rng.randint(1, 6) for _ in range(nf)]) / 64.0
+        oned = rng.random() < 0.25
+        nd = 1 if oned else rng.choice([2, 4, 8, 12])
+        d = None if oned else np.arange(nd) * (360.0 / nd)
+        E = np.array([[float(rng.randint(0, 9)) for _ in range(nd)] for _ in range(nf)])
+        kind = rng.choice(["same", "subset", "subset_top", "mid", "beyond", "mixed"])
+        if kind == "same":
+            tf = f.copy()
+        elif kind == "subset":
+            tf = f[::2].copy()
+        elif kind == "subset_top":
+            tf = np.unique(np.concatenate([f[::3], f[-1:]]))
+        elif kind == "mid":
+            tf = (f[:-1] + f[1:]) / 2
+        elif kind == "beyond":
+            tf = np.concatenate([[f[0] / 2], f, [f[-1] + 1 / 64.0, f[-1] * 2]])
+        else:
+            tf = np.unique(np.concatenate([f[rng.randrange(nf):], (f[:-1] + f[1:]) / 2, [f[0], f[-1], f[-1] + 0.5]]))
+        case = dict(infreq=f.tolist(), indir=None if oned else d.tolist(), outfreq=tf.tolist(), E=E.tolist(), kind=kind)
+        ck.case(("interp_spec", kind, oned, nf > 4), bool(E.any()), sample=dict(op="interp_spec", kind=kind, nf=nf, nd=nd))
+        try:
+            out = interp_spec(E[:, 0] if oned else E, f, d, outfreq=tf, outdir=None if oned else d.copy())
+            out = np.asarray(out, dtype=float).reshape((len(tf), nd))
+        except Exception as e:
+            ck.fail("interp_spec", f"raised {type(e).__name__}: {e}", case, "crash")
+            continue
+        ref = np.zeros((len(tf), nd))
+        for i, x in enumerate(tf):
+            if x < f[0] or x > f[-1]:
+                continue
+            k = int(np.searchsorted(f, x, side="right")) - 1
+            if f[k] == x:
+                ref[i] = E[k]
+            else:
+                w = (x - f[k]) / (f[k + 1] - f[k])
+                ref[i] = (1 - w) * E[k] + w * E[k + 1]
+        if (out < 0).any():
+            ck.fail("interp_spec", "negative energy from a non-negative spectrum", case, "interp_spec_negative")
+        elif not np.allclose(out, ref, rtol=1e-12, atol=1e-12):
+            i, j = np.unravel_index(int(np.argmax(np.abs(out - ref))), out.shape)
+            what = "identity on the same grid" if kind == "same" else \
+                ("value on a node shared with the source" if tf[i] in f else "zero outside the source range" if (tf[i] < f[0] or tf[i] > f[-1])
+                 else "linear interpolation between nodes")
+            ck.fail("interp_spec", f"{what}: got {out[i, j]} expected {ref[i, j]} at f={tf[i]}", case, "interp_spec_value")
+
+
 def run_check():
     ck = Check("C08")
     ck.extra["rule"] = ("cases = (source grid kind, target grid kind, entry point, container, dtype, maintain_m0 on+off) from the C08 "
@@ -434,6 +494,7 @@ def run_check():
     log(f"[C08] model runs done {time.time() - ck.t0:.1f}s")
     for (r, pos, base), resp in zip(ctxs, resps):
         check_position(ck, r, pos, base, resp)
+    legacy_interp_spec(ck)
     ck.assumptions = [
         "float arithmetic of scipy.interp1d / numpy is compared with the exact-rational model within 1e-9 of the spectrum's largest "
         "value (1e-5 when the output is float32); Hs within 1e-9 (2e-6 for float32 input)",
